@@ -73,8 +73,9 @@ def render_modules(eqs: SymEquations,
         # rename trigger_func
         for func_name, func in trigger_func.items():
             name0 = func.__name__
+            # keep the `np.` prefix (num_func knows `np`): without it np.max(x, 0) and the builtin max(x, 0) would be
+            # the same name in the module
             func_code = inspect.getsource(func).replace(name0, func_name)
-            func_code = func_code.replace('np.', '')
             code_tfuc[func_name] = func_code
         return code_tfuc
 
@@ -215,6 +216,9 @@ def print_init_code(eqn_type: str, module_name, eqn_param):
 
 def print_module_code(code_dict: Dict[str, str], numba=False):
     code = 'from .dependency import *\n'
+    # `from numpy import *` (via dependency) shadows abs, all, any, bool, divmod, max, min, pow, round, sum; the source of
+    # a trigger function is copied verbatim and means the builtins, as it does in the in-process model
+    code += 'from builtins import *\n'
     code += """_data_ = setting["data"]\n"""
     code += """_data_hvp = setting["data_hvp"]\n"""
     code += """_F_ = zeros_like(y, dtype=float64)"""
